@@ -87,7 +87,107 @@ class SetDelay(Unit):
                 "given_is_distrax": probes.get("given_is_distrax") == "True"}
 
 
-UNITS = [SetDelay("Connection"), SetDelay("BaseNode")]
+def mk_node(name, module="rex/node.py", with_phase=None):
+    f = dict(name=name, rate=z3.Real(f"{name}.rate"), advance=False, scheduling=EnumV("Scheduling", "FREQUENCY"), delay_dist=z3.Const(f"{name}.delay_dist", Leaf),
+             delay=z3.Real(f"{name}.delay"), inputs={}, outputs={}, color=None, order=None)
+    if with_phase is not None:
+        f["phase"] = with_phase
+    return Rec("BaseNode", f, module=module)
+
+
+def mk_conn(inp, out, input_name, tag):
+    c = Rec("Connection", dict(input_node=inp, output_node=out, blocking=z3.Bool(f"{tag}.blocking"), delay_dist=z3.Const(f"{tag}.delay_dist", Leaf), delay=z3.Real(f"{tag}.delay"),
+                               window=z3.Int(f"{tag}.window"), skip=z3.Bool(f"{tag}.skip"), jitter=EnumV("Jitter", "LATEST"), input_name=input_name), module="rex/node.py")
+    inp.f["inputs"][input_name] = c
+    out.f["outputs"][inp.f["name"]] = c
+    return c
+
+
+class Phase(Unit):
+    """node.phase satisfies the Bellman equation of the longest expected-delay path"""
+    name = "BaseNode.phase / Connection.phase"
+    target = "rex/node.py::BaseNode.phase"
+    props = ("C16", "C04")
+
+    def configs(self):
+        for k in (0, 1, 2, 3):
+            yield f"fanin={k}", dict(k=k)
+
+    def run(self, ctx):
+        ex = ctx.ex
+        n = mk_node("n")
+        terms = []
+        for i in range(ctx.cfg["k"]):
+            src = mk_node(f"s{i}", with_phase=z3.Real(f"s{i}.phase"))
+            ctx.require(src.f["phase"] >= 0)
+            c = mk_conn(n, src, f"in{i}", f"c{i}")
+            ctx.require(z3.And(src.f["delay"] >= 0, c.f["delay"] >= 0))    # expected delays are non-negative (asserted in the constructors)
+            terms.append((c.f["skip"], src.f["phase"] + src.f["delay"] + c.f["delay"]))
+            cp = ex.getattr(c, "phase")
+            ctx.ensure(f"connection phase = sender phase + sender expected computation delay + connection expected delay", toz(cp) == src.f["phase"] + src.f["delay"] + c.f["delay"])
+        ph = toz(ex.getattr(n, "phase"))
+        ctx.ensure("C16 phase >= 0 and >= every non-skipped input's (sender phase + sender delay + connection delay)", z3.And([ph >= 0] + [z3.Implies(z3.Not(sk), ph >= t) for sk, t in terms]))
+        ctx.ensure("C16 phase is attained: 0 for sources, else the largest such term (Bellman equation of the longest expected-delay path)", z3.Or([ph == 0] + [z3.And(z3.Not(sk), ph == t) for sk, t in terms]))
+        po = toz(ex.getattr(n, "phase_output"))
+        ctx.ensure("phase_output = phase + the node's expected computation delay", po == ph + n.f["delay"])
+
+
+class InfoRoundTrip(Unit):
+    """rebuilding a node's connections from its info (connect_from_info) yields equal infos, names and connection settings"""
+    name = "BaseNode.info / connect_from_info"
+    target = "rex/node.py::BaseNode.connect_from_info"
+    props = ("C16",)
+
+    def opts(self, cfg):
+        return {"isinstance": _isinstance}
+
+    def summaries(self, cfg):
+        return {("StaticDist", "create"): _create}
+
+    def configs(self):
+        yield "two inputs, one with a shadow name", dict(names=[("a", "a"), ("b", "shadow_b")])
+        yield "one input, default name", dict(names=[("a", "a")])
+
+    def run(self, ctx):
+        ex = ctx.ex
+        ex.lib.rec_methods[("BaseNode", "__class__")] = lambda ex_, o: Rec("type", dict(__module__="m", __qualname__="BaseNode"), module=None, frozen=True)
+        n = mk_node("n")
+        srcs = {}
+        for out_name, in_name in ctx.cfg["names"]:
+            src = mk_node(out_name, with_phase=z3.Real(f"{out_name}.phase"))
+            srcs[out_name] = src
+            c = mk_conn(n, src, in_name, f"c_{out_name}")
+            ctx.require(z3.And(is_dd(c.f["delay_dist"]), z3.Not(is_distrax(c.f["delay_dist"])), c.f["delay"] >= 0))
+        info = ex.getattr(n, "info")
+        ok = isinstance(info, Rec) and isinstance(info.f.get("inputs"), dict)
+        ctx.ensure("info lists the inputs under the sender's node name", z3.BoolVal(ok and set(info.f["inputs"]) == set(srcs)))
+        if not ok:
+            return
+        n2 = mk_node("n")
+        # the rebuilt senders are new objects with the same names
+        srcs2 = {k: mk_node(k, with_phase=v.f["phase"]) for k, v in srcs.items()}
+        for k in srcs2:
+            srcs2[k].f["rate"], srcs2[k].f["delay"] = srcs[k].f["rate"], srcs[k].f["delay"]
+        ctx.call(self_obj=n2, args=[info.f["inputs"], srcs2])
+        ctx.ensure("C16 the rebuilt node has the same input names (shadow names kept)", z3.BoolVal(set(n2.f["inputs"]) == set(n.f["inputs"])))
+        info2 = ex.getattr(n2, "info")
+        for out_name, in_name in ctx.cfg["names"]:
+            a, b = info.f["inputs"][out_name], info2.f["inputs"].get(out_name)
+            if not isinstance(b, Rec):
+                ctx.ensure(f"C16 input from {out_name} restored", z3.BoolVal(False))
+                continue
+            ctx.ensure(f"C16 rebuilt InputInfo of the connection from {out_name} equals the original (name, sender, window, blocking, skip, jitter, delay, distribution, phase, rate)",
+                       z3.And([toz(aw_same(a.f[k], b.f[k])) for k in a.f]))
+            c2 = n2.f["inputs"].get(in_name)
+            ctx.ensure(f"C16 the connection is registered on both ends under the right keys", z3.BoolVal(isinstance(c2, Rec) and srcs2[out_name].f["outputs"].get("n") is c2 and c2.f["output_node"] is srcs2[out_name]))
+
+
+def aw_same(a, b):
+    from .aw import same
+    return same(a, b)
+
+
+UNITS = [SetDelay("Connection"), SetDelay("BaseNode"), Phase(), InfoRoundTrip()]
 
 
 def check(tier, seed):
